@@ -97,7 +97,7 @@ func buildWeighted(s *gspec, idKind, variant int, w func(i, j int) int) (*built,
 				}
 				// the edge weight of a multigraph edge is the sum of its lines.
 				wt := w(i, j)
-				if doubled(i, j) {
+				if doubled(i, j, idKind) {
 					a := wt / 2
 					g.SetWeightedLine(g.NewWeightedLine(multi.Node(ids[i]), multi.Node(ids[j]), float64(a)))
 					g.SetWeightedLine(g.NewWeightedLine(multi.Node(ids[j]), multi.Node(ids[i]), float64(wt-a)))
